@@ -92,6 +92,17 @@ def tar_mutants(r, tier):
              b"7 a=b\n" * 3000, b"\n\n\n", b"9" * 30 + b" x=y\n"]
     for p in paxes:
         yield "pax-record", pax_member(p) + bytes(1024)
+    # sequences of sparse records inside one PAX header: a list installed first (valid map, or 0.0 offset/numbytes pairs),
+    # then a malformed or a second map, then more pairs
+    good_map = _pax_record(b"GNU.sparse.map", b"0,1,2,1")
+    pairs = _pax_record(b"GNU.sparse.offset", b"0") + _pax_record(b"GNU.sparse.numbytes", b"1") + _pax_record(b"GNU.sparse.offset", b"3") + _pax_record(b"GNU.sparse.numbytes", b"1")
+    bad_maps = [_pax_record(b"GNU.sparse.map", v) for v in (b"0,1,2", b"5,1,0,9", b",,,", b"0,1,x,2", b"", b"1", b"0,99999999999999999999", b"-1,1")]
+    more = _pax_record(b"GNU.sparse.offset", b"5") + _pax_record(b"GNU.sparse.numbytes", b"1")
+    size = _pax_record(b"GNU.sparse.size", b"9") + _pax_record(b"GNU.sparse.numblocks", b"3")
+    for first in (good_map, pairs, size + pairs, good_map + pairs):
+        for bad in bad_maps + [good_map]:
+            for tail_ in (b"", more, good_map, more + bad_maps[0]):
+                yield "pax-record", pax_member(first + bad + tail_, size=2) + bytes(1024)
     # sparse maps
     def old_sparse(entries, realsize, datasize):
         h = bytearray(_header(b"sp", 0o644, 0, 0, datasize, 0, b"S", b"", "gnu"))
@@ -238,6 +249,53 @@ def text_mutants(r, tier, ok, kind):
         yield kind + ":mutated", data
 
 
+NOQUIET_OPTS = [["-c", "lz4"], ["-c", "lz4", "-X", "hc"], ["-c", "gzip", "-X", "level=3"], ["-c", "xz", "-X", "dictsize=8192"], ["-c", "zstd", "-X", "level=3"], ["-c", "gzip"], ["-c", "xz"]]
+
+
+def noquiet_case(arg):
+    """Valid inputs with and without file content, packed WITHOUT -q (the statistics code runs) under compressor settings with and without an options block."""
+    idx, tier = arg
+    oc = core.Outcome("noquiet-%d" % idx, features=("noquiet", idx))
+    try:
+        B = build.build("asan")
+        with core.Scratch("c07q") as work:
+            out = os.path.join(work, "o.sqfs")
+            contents = [("empty-files", [(b"d/", None), (b"d/e", b""), (b"l", "->d/e")]), ("dirs-only", [(b"a/", None), (b"a/b/", None)]),
+                        ("one-byte", [(b"f", b"x")]), ("zeros", [(b"z", bytes(5000))])][idx % 4]
+            w = tarmodel.TarWriter("gnu")
+            for nm, body in contents[1]:
+                if body is None:
+                    w.add(nm.rstrip(b"/"), Node("dir", 0o755))
+                elif isinstance(body, str):
+                    w.add(nm, Node("slink", 0o777, target=body[2:].encode()))
+                else:
+                    w.add(nm, Node("file", 0o644, data=[("bytes", body)] if body else []))
+            tar = w.finish()
+            root = os.path.join(work, "in")
+            os.makedirs(root)
+            for nm, body in contents[1]:
+                full = os.path.join(os.fsencode(root), nm.rstrip(b"/"))
+                if body is None:
+                    os.makedirs(full, exist_ok=True)
+                elif isinstance(body, str):
+                    os.symlink(body[2:], full)
+                else:
+                    with open(full, "wb") as f:
+                        f.write(body)
+            for copts in NOQUIET_OPTS:
+                for tool, argv, stdin in (("tar2sqfs", [B["tar2sqfs"]] + copts + ["-f", out], tar), ("gensquashfs", [B["gensquashfs"]] + copts + ["-f", "-D", root, out], None)):
+                    if os.path.exists(out):
+                        os.unlink(out)
+                    run = lambda t=WATCHDOG, argv=argv, stdin=stdin: core.run_tool(argv, stdin=stdin, timeout=t, cwd=work)
+                    res = run()
+                    judge(oc, res, out, "statistics:%s" % contents[0], tar, tool, run)
+                    if res.rc != 0 and not res.san and not res.hang:
+                        oc.violate("%s:valid-input-rejected:statistics:%s" % (tool, contents[0]), "rc=%s %s" % (res.rc, res.err[-200:]))
+    except Exception:
+        oc.inconclusive.append("harness exception: %s" % traceback.format_exc()[-800:])
+    return oc
+
+
 def judge(oc, res, out, cls, data, tool, inputs):
     oc.inc("runs")
     oc.inc("class:" + cls.split(":")[0])
@@ -300,7 +358,10 @@ def run_batch(arg):
                     fn = os.path.join(work, "in.txt")
                     with open(fn, "wb") as f:
                         f.write(data)
-                    if cls.startswith("pack"):
+                    if cls.startswith("pack") and cls.endswith(":relative-no-packdir"):
+                        # the pack file is named without a directory component and there is no --pack-dir
+                        args = ["-F", "in.txt"]
+                    elif cls.startswith("pack"):
                         args = ["-F", fn, "-D", pdir]
                     elif cls.startswith("sort"):
                         args = ["-F", okpack, "-D", pdir, "-S", fn]
@@ -329,7 +390,9 @@ def main(tier):
         keep = [x for x in tar_items if x[0] in ("hardlink-graph", "pax-record", "sparse-old", "sparse-1.0", "gnu-longname", "junk") or x[0].startswith("compressed")]
         rest = [x for x in tar_items if x not in keep]
         tar_items = keep + r.sample(rest, max(0, 2500 - len(keep)))
-    text_items = list(text_mutants(r, tier, PACK_OK, "pack")) + list(text_mutants(r, tier, SORT_OK, "sort")) + list(text_mutants(r, tier, XATTR_OK, "xattr"))
+    rel = [("pack:relative-no-packdir", d) for d in (PACK_OK, b"glob / 0755 0 0 .\n", b"glob /g * * * -type f .\n", b"dir /d 0755 0 0\nfile /d/f 0644 0 0 in.txt\n", b"file /f 0644 0 0\n",
+                                                     b"glob /x 0755 0 0 sub\n", b"file /in.txt 0644 0 0\nglob / * * * -name \"*.txt\" .\n")]
+    text_items = rel + list(text_mutants(r, tier, PACK_OK, "pack")) + list(text_mutants(r, tier, SORT_OK, "sort")) + list(text_mutants(r, tier, XATTR_OK, "xattr"))
     per = 40
     slow = [x for x in tar_items if x[0] == "sparse-huge-realsize"]
     tar_items = [x for x in tar_items if x[0] != "sparse-huge-realsize"]
@@ -338,6 +401,9 @@ def main(tier):
     batches += [(i, "text", text_items[k:k + per], tier) for i, k in enumerate(range(0, len(text_items), per))]
     classes = set()
     for oc in core.pmap(run_batch, batches):
+        classes |= set(k for k in oc.counters if k.startswith("class:"))
+        rep.add(oc)
+    for oc in core.pmap(noquiet_case, [(i, tier) for i in range(4)]):
         classes |= set(k for k in oc.counters if k.startswith("class:"))
         rep.add(oc)
     rep.evaluations = rep.counters.get("runs", 0)
